@@ -113,7 +113,13 @@ pub fn observe(bytes: &[u8], case: &Value, preset_name: &str, ev: &EventCounter)
         let enumerating = matches!(case.get("objects"), Some(Value::String(_)));
         let last = want.last().map(|x| x.0).unwrap_or(0);
         let mut misses = 0u32;
+        let t_objs = crate::mon::thread_cpu_ns();
+        let budget_ns = case.get("cpu_budget_s").and_then(|x| x.as_u64()).unwrap_or(6) * 1_000_000_000;
         for (n, g) in want {
+            if crate::mon::thread_cpu_ns() - t_objs > budget_ns {
+                out.insert("object_budget_exceeded_at".into(), json!(n));
+                break;
+            }
             // writers may leave huge gaps in the numbering (free entries): after a long
             // run of absent objects jump to the tail of the number space
             if enumerating && misses >= 40 && n + 4 < last {
@@ -161,7 +167,13 @@ pub fn observe(bytes: &[u8], case: &Value, preset_name: &str, ev: &EventCounter)
                 let doc = reader.into_document();
                 let maxp = case.get("max_pages").and_then(|x| x.as_u64()).unwrap_or(500) as u32;
                 let mut pages = Vec::new();
+                let t_pages = crate::mon::thread_cpu_ns();
+                let page_budget_ns = case.get("cpu_budget_s").and_then(|x| x.as_u64()).unwrap_or(6) * 1_000_000_000;
                 for i in 0..n.min(maxp) {
+                    if crate::mon::thread_cpu_ns() - t_pages > page_budget_ns {
+                        out.insert("page_budget_exceeded_at".into(), json!(i));
+                        break;
+                    }
                     match doc.get_page(i) {
                         Ok(p) => {
                             let mut pj = Map::new();
@@ -252,9 +264,15 @@ pub fn run(ctx: &Ctx, rec: &mut Recorder) -> Result<(), String> {
         };
         for p in presets {
             rec.evaluations += 1;
+            let t0 = crate::mon::thread_cpu_ns();
             let r = crate::mon::guarded(|| observe(&bytes, &case, &p, &ev));
+            let cpu_ms = (crate::mon::thread_cpu_ns() - t0) / 1_000_000;
+            rec.extra.insert("max_case_cpu_ms".into(), json!(rec.extra.get("max_case_cpu_ms").and_then(|x| x.as_u64()).unwrap_or(0).max(cpu_ms)));
             let v = match r {
-                Ok(v) => v,
+                Ok(mut v) => {
+                    v["cpu_ms"] = json!(cpu_ms);
+                    v
+                }
                 Err(pn) => json!({"id": case["id"], "preset": p, "panic": pn.site(), "panic_msg": pn.message}),
             };
             writeln!(f, "{}", v).map_err(|e| e.to_string())?;
